@@ -57,6 +57,13 @@ PROGRAMS = [
     'import pa\ndef fn():\n    """\n    >>> import pa; import pa\n    >>> pa.K\n    """\n    return pa.K\nprint(fn())\n',
     "import pa\ndef fn[T: pa.C](a: T = 1) -> T:\n    return a\nprint(fn())\n",
     "import pa\nclass G[T: pa.C]:\n    pass\nprint(G)\n",
+    # round 3: read only as a mapping-pattern key; import named like a builtin; `del` of imported names
+    "import pa\ndef fn(v=10):\n    match {v: 1}:\n        case {pa.K: d, **others}:\n            return (d, others)\n    return 0\nprint(fn())\n",
+    "from pa import f as pow\nprint(pow(3, 2))\n",
+    "from pa import K as max\ndef fn():\n    return max\nprint(fn())\n",
+    "import pa, pb\nfrom Pq import zf\nprint(pa.K)\ndel zf, pa, pb\n",
+    "import pa.s2\ndel pa\nprint(1)\n",
+    "def fn(v=[1, 2]):\n    match v:\n        case [a, *rest]:\n            return rest\nfrom pa import f as rest\nprint(fn(), rest(1))\n",
     # string annotation / f-string uses
     "from pa import C\ndef ann(x: 'C') -> 'C':\n    return x\nprint(ann(1), f'{C().m(1)}')\n",
 ]
